@@ -199,7 +199,7 @@ fn render_model(m: &Model, lay: &mut Rng) -> Vec<String> {
                         let mut m0 = members.clone();
                         let m1 = if split && m0.len() > 1 { m0.split_off(lay.range(1, m0.len())) } else { vec![] };
                         let ms = |xs: &[String], lay: &mut Rng| if xs.is_empty() { String::new() } else { format!(" = {}{}", if lay.chance(1, 4) { "| " } else { "" }, xs.join(" | ")) };
-                        out += &format!("{ext}union {}{}{}\n", t.name, r_apps(&dirs), if m0.is_empty() && !t.is_ext { " =".to_string() } else { ms(&m0, lay) });
+                        out += &format!("{ext}union {}{}{}\n", t.name, r_apps(&dirs), ms(&m0, lay));
                         if !m1.is_empty() || !dirs1.is_empty() { later.push((lay.below(nf), format!("extend union {}{}{}\n", t.name, r_apps(&dirs1), ms(&m1, lay)))); }
                     }
                     Kind::Enum { values } => {
@@ -623,7 +623,7 @@ fn mutation_kinds() -> Vec<&'static str> {
          "dirarg_input_field", "dirarg_variable",
          "directive_recursive_self", "directive_recursive_mutual", "directive_recursive_type",
          // spec-invalid or odd documents outside the implemented rules: correspondence only (label x_*)
-         "x_cross_kind_dup", "x_dup_directive_def", "x_ext_without_original", "x_dup_dirarg_in_app", "x_int_out_of_range", "x_nested_type_recursion"]
+         "x_cross_kind_dup", "x_dup_directive_def", "x_ext_without_original", "x_dup_dirarg_in_app", "x_int_out_of_range", "x_nested_type_recursion", "x_empty_object", "x_empty_union"]
 }
 
 /// a literal the specification rejects for `ty` (and nitrogql's rules as well)
@@ -940,7 +940,7 @@ fn mutate(rng: &mut Rng, m: &mut Model, kind: &str) -> Option<(String, String)> 
             }
             if !done { return None; }
             site_dirs(m, &s)[k].args = Some(args);
-            ok(if kind == "x_int_out_of_range" { "x_int_out_of_range" } else { "directive_args" }, &format!("{}:{}", &kind[if kind.starts_with("x_") { 2 } else { 7 }..], tag))
+            ok("directive_args", &format!("{}:{}", &kind[if kind.starts_with("x_") { 2 } else { 7 }..], tag))
         }
         "dirarg_missing_required" => {
             let c = apps_where(m, &|a, d| a.args.as_ref().map_or(false, |xs| xs.iter().any(|x| d.args.iter().any(|da| da.name == x.0 && da.ty.is_nonnull() && da.default.is_none()))));
@@ -1014,6 +1014,21 @@ fn mutate(rng: &mut Rng, m: &mut Model, kind: &str) -> Option<(String, String)> 
                     m.items.push(Item::T(TypeDef { name: "RecInner".into(), kind: Kind::Input { fields: vec![arg("g", Ty::n("Int"), vec![app("recn")])] }, dirs: vec![], desc: None, is_ext: false }));
                     ok("x_nested_type_recursion", "input_field_of_field_type")
                 }
+            }
+        }
+        "x_empty_object" | "x_empty_union" => {
+            // `type A` / `union U` without a body parse since 530788b / 3814a72; the specification asks for >= 1 field / member
+            let at = rng.below(m.items.len() + 1);
+            let dirs = if rng.chance(1, 2) { vec![] } else { vec![App { name: "l0".into(), args: None }] };
+            let dirs = if m.get_dir("l0").map_or(false, |d| d.args.iter().all(|a| !(a.ty.is_nonnull() && a.default.is_none()))) { dirs } else { vec![] };
+            if kind == "x_empty_object" {
+                m.items.insert(at, Item::T(TypeDef { name: "EmptyObj".into(), kind: Kind::Object { implements: vec![], fields: vec![] }, dirs, desc: None, is_ext: false }));
+                // sometimes use it, so that it is not merely an unused definition
+                if rng.chance(1, 2) { if let Some(i) = type_idx(m, |k| matches!(k, Kind::Union { .. })).first().copied() { if let Item::T(TypeDef { kind: Kind::Union { members }, .. }) = &mut m.items[i] { members.push("EmptyObj".into()); } } }
+                ok("x_empty_object", "object")
+            } else {
+                m.items.insert(at, Item::T(TypeDef { name: "EmptyUnion".into(), kind: Kind::Union { members: vec![] }, dirs, desc: None, is_ext: false }));
+                ok("x_empty_union", "union")
             }
         }
         "x_cross_kind_dup" => {
@@ -1118,14 +1133,14 @@ fn corpus() -> Vec<(&'static str, &'static str, &'static str)> {
         ("directive_recursive", "corpus:three_cycle", "directive @a(x: Int @b) on ARGUMENT_DEFINITION\ndirective @b(x: Int @c) on ARGUMENT_DEFINITION\ndirective @c(x: Int @a) on ARGUMENT_DEFINITION\ntype Query { a: Int }\n"),
         ("valid", "corpus:diamond_no_cycle", "directive @a(x: Int @b @c) on FIELD\ndirective @b(x: Int @d) on ARGUMENT_DEFINITION\ndirective @c(x: Int @d) on ARGUMENT_DEFINITION\ndirective @d on ARGUMENT_DEFINITION\ntype Query { a: Int }\n"),
         ("x_nested_type_recursion", "corpus:nested", "directive @r(a: Outer) on INPUT_FIELD_DEFINITION\ninput Outer { f: Inner }\ninput Inner { g: Int @r }\ntype Query { a: Int }\n"),
-        ("x_extra_nonnull_default", "corpus:extra_arg", "interface I { f: Int }\ntype Query implements I { f(extra: Int! = 3): Int }\n"),
+        ("valid", "corpus:extra_arg", "interface I { f: Int }\ntype Query implements I { f(extra: Int! = 3): Int }\n"),
         ("x_cross_kind_dup", "corpus:first_last", "type A { x: Int }\nscalar A\nunion U = A\ntype Query { a: A, u: U }\ninput In { a: A }\n"),
         ("x_cross_kind_dup", "corpus:last_first", "scalar A\ntype A { x: Int }\nunion U = A\ntype Query { a: A, u: U }\ninput In { a: A }\n"),
         ("x_dup_dirarg_in_app", "corpus:dup_arg", "directive @d(x: Int) on OBJECT\ntype Query @d(x: 1, x: 2) { a: Int }\n"),
         ("directive_args", "corpus:dup_input_field_literal", "directive @d(x: In) on OBJECT\ninput In { a: Int }\ntype Query @d(x: {a: 1, a: 2}) { a: Int }\n"),
         ("valid", "corpus:list_coercion", "directive @d(x: [[Int]], y: [Int!]!, z: In) on OBJECT\ninput In { a: [In!], b: Float = 1 }\ntype Query @d(x: 1, y: [1, 2], z: {a: {a: [], b: 2}}) { a: Int }\n"),
         ("directive_args", "corpus:nested_errors", "directive @d(z: In!) on OBJECT\nenum E { A }\ninput In { a: [In!], e: E!, r: Int! }\ntype Query @d(z: {a: [{e: B, r: \"x\"}], e: A, q: 1}) { a: Int }\n"),
-        ("x_int_out_of_range", "corpus:int_range", "directive @d(x: Int) on OBJECT\ntype Query @d(x: 2147483648) { a: Int }\n"),
+        ("directive_args", "corpus:int_range", "directive @d(x: Int) on OBJECT\ntype Query @d(x: 2147483648) { a: Int }\n"),
         // appended after the witnesses above (coq/C05/Witness.v was printed from the cases above, keep their order)
         ("x_dup_dirarg_in_app", "corpus:dup_arg_shadows_ill_typed", "directive @d(x: Int) on OBJECT\ntype Query @d(x: 1, x: \"s\") { a: Int }\n"),
         ("valid", "corpus:interfaces", "interface A { f(a: Int): [A] }\ninterface B implements A { f(a: Int, b: String): [B!] g: U }\ntype Query implements B & A { f(a: Int, b: String, c: ID = 1): [Query!]! g: Query }\nunion U = Query\n"),
@@ -1138,6 +1153,9 @@ fn corpus() -> Vec<(&'static str, &'static str, &'static str)> {
         ("x_multi_schema", "corpus:two_schema_definitions", "schema { query: Query }\nschema { query: Query }\ntype Query { a: Int }\n"),
         ("directive_repeated", "corpus:repeat_across_extension", "directive @once on OBJECT\ndirective @many repeatable on OBJECT\ntype Query @once @many @many { a: Int }\nextend type Query @once\n"),
         ("valid", "corpus:enum_and_input_literals", "directive @d(e: [E!]! = [A], i: In!, s: Sc, f: Float, id: ID) on FIELD_DEFINITION\nenum E { A B }\nscalar Sc\ninput In { e: E = B, n: [In!], req: Boolean! }\ntype Query { a: Int @d(e: B, i: {req: true, n: [{req: false, e: null}]}, s: {any: [1, \"x\"]}, f: 3, id: 7) }\n"),
+        ("x_empty_object", "corpus:object_without_fields", "type A\ntype Query { a: A }\n"),
+        ("x_empty_union", "corpus:union_without_members", "union U\ntype Query { u: U }\n"),
+        ("iface_field_missing", "corpus:object_without_fields_implements", "interface I { f: Int }\ntype A implements I\ntype Query { a: A }\n"),
         ("iface_field_type", "corpus:nullable_for_nonnull", "interface A { f: Int! }\ntype Query implements A { f: Int }\n"),
         ("valid", "corpus:all_locations", "directive @y(n: Int) repeatable on SCHEMA | SCALAR | OBJECT | FIELD_DEFINITION | ARGUMENT_DEFINITION | INTERFACE | UNION | ENUM | ENUM_VALUE | INPUT_OBJECT | INPUT_FIELD_DEFINITION\ndirective @x(a: E = V, i: In = {r: 1} @y) repeatable on SCHEMA | SCALAR | OBJECT | FIELD_DEFINITION | ARGUMENT_DEFINITION | INTERFACE | UNION | ENUM | ENUM_VALUE | INPUT_OBJECT | INPUT_FIELD_DEFINITION\nenum E @y { V @y @deprecated }\ninput In @y { r: Int! @y, o: [In] @y(n: 2) }\nscalar S @x @specifiedBy(url: \"u\")\ninterface I @x { f(a: Int @x): S @x }\ntype Query implements I @x @x(a: V, i: {r: 2, o: [{r: 3}]}) { f(a: Int @x @deprecated): S @x }\nunion U @x = Query\nschema @x { query: Query }\n"),
     ]
